@@ -222,15 +222,23 @@ def tok_masks(code):
                         stack.append(["expr", 0])
                     else:
                         top[1] += 1
+                        top.append("{")
                 elif s in "([":
                     if top[0] == "expr":
                         top[1] += 1
+                        top.append(s)
                 elif s in ")]":
                     if top[0] == "expr" and top[1] > 0:
+                        # a closer that does not match its opener: not Python (CPython's compiler rejects it,
+                        # tokenize does not) -> the oracle gives no verdict
+                        if len(top) > 2 and top.pop() != {")": "(", "]": "["}[s]:
+                            return None
                         top[1] -= 1
                 elif s == "}":
                     if top[0] == "expr":
                         if top[1] > 0:
+                            if len(top) > 2 and top.pop() != "{":
+                                return None
                             top[1] -= 1
                         else:
                             stack.pop()
